@@ -83,6 +83,10 @@ def _apply_orchestrator_config(
     # The group-level --config option names the same kind of file as the command-level one
     config_file = config_file or _group_level_config_path()
     if rules:
+        if config_file and not Path(config_file).exists():
+            # --rules replaces the file's settings, but a file that was asked for must exist
+            click.echo(f"Error: Config file not found: {config_file}", err=True)
+            sys.exit(2)
         _apply_inline_rules(orchestrator, rules, verbose)
     elif config_file:
         load_config_file(orchestrator, config_file, verbose)
